@@ -301,10 +301,11 @@ type dnsKernMap struct {
 	tainted bool
 	inSync  int
 	lastWriter map[[4]uint32]string
+	lastStep   map[[4]uint32]int
 }
 
 func dnsNewKernMap(w *dnsWorld) *dnsKernMap {
-	return &dnsKernMap{w: w, handle: new(ebpf.Map), m: map[[4]uint32]bpfDomainRouting{}, lastWriter: map[[4]uint32]string{}}
+	return &dnsKernMap{w: w, handle: new(ebpf.Map), m: map[[4]uint32]bpfDomainRouting{}, lastWriter: map[[4]uint32]string{}, lastStep: map[[4]uint32]int{}}
 }
 
 func (k *dnsKernMap) install(faults bool) {
